@@ -69,8 +69,8 @@ impl<E: Endianness, BW: BitWrite<E>, const PRINT: bool> BitWrite<E>
     }
 
     fn flush(&mut self) -> Result<usize, Self::Error> {
+        // the flushed bits were counted when they were written
         self.bit_write.flush().inspect(|x| {
-            self.bits_written += *x;
             if PRINT {
                 eprintln!("flush() = {} (total = {})", x, self.bits_written);
             }
